@@ -1,6 +1,7 @@
 package checks
 
 import (
+	"encoding/binary"
 	"fmt"
 	"reflect"
 	"strings"
@@ -20,7 +21,7 @@ import (
 // is read from the device with the independent decoder (mc.DecodeWAL), the transaction is decoded by
 // ParseTGData and compared with what was written (only accepted writes are judged). "synthetic":
 // write commands of the shapes the real pass showed to be acceptable, with extreme offsets/indices
-// and 1-3 commands per transaction, through serializeTG -> ParseTGData.
+// and 1-3 commands per transaction, through FlushCommandsToWAL (the serialized transaction as handed to the replication sender) -> ParseTGData.
 
 type c28Spec struct {
 	Pass     string `json:"pass"` // real | synthetic
@@ -43,8 +44,8 @@ func init() {
 		Level: "exploration",
 		Rule: "real pass: column-name lengths {1,31,32,33,64,255,256,300} x column counts {1,2,3,255,256} x {fixed,variable} x payload {1 row, 3 rows in 3 intervals, 1000 records in one interval (variable) / 150 intervals (fixed)} x symbol length {4, 200, 255}: " +
 			"create + write through the server, decode the WAL's transaction with ParseTGData, compare file, record type, offset, index, payload, schema (also for a bucket that existed before under the same key with another schema and was destroyed); " +
-			"synthetic pass: the accepted shapes x 1-3 commands x offset/index extremes through serializeTG -> ParseTGData. distinct by spec; non-trivial = write accepted",
-		Assume:   []string{"export hook VerifSerializeTG (overlay-added file in package executor) for the synthetic pass", "independent WAL decoder mc/walfmt.go"},
+			"synthetic pass: the accepted shapes x 1-3 commands x offset/index extremes through FlushCommandsToWAL (the serialized transaction as handed to the replication sender) -> ParseTGData. distinct by spec; non-trivial = write accepted",
+		Assume:   []string{"synthetic pass: commands are encoded by the exported FlushCommandsToWAL and captured at the replication sender", "independent WAL decoder mc/walfmt.go"},
 		QuickMax: 4 * time.Minute, ThorMax: 15 * time.Minute,
 	}, c28Enum, c28Run)
 }
@@ -328,10 +329,29 @@ func c28Synthetic(c *mc.Ctx, s c28Spec, names []string, cls, rt string) {
 		cmds = append(cmds, &wal.WriteCommand{RecordType: rtv, WALKeyPath: fmt.Sprintf("SYM%d/1Min/OHLC/2021.bin", k), VarRecLen: vrl,
 			Offset: ext[0] + int64(k), Index: ext[1], Data: data, DataShapes: shapes})
 	}
+	// encode through the server's own flush (exported FlushCommandsToWAL); the serialized transaction is what the
+	// server hands to its replication sender. No private symbol is referenced, so a refactoring of the encoder's
+	// internals cannot break the build of this check.
 	var body []byte
-	if p := safely(func() { body, _ = executor.VerifSerializeTG(42, cmds) }); p != "" {
-		c.Violate("panic|encode|"+cls, p)
-		return
+	{
+		world.FreshDevice()
+		cap := &capSender{}
+		w, obs := world.Start(world.Config{BackgroundSync: false, ReplicationSender: cap})
+		if !obs.OK() {
+			c.Violate("startup-failed", obs.String())
+			return
+		}
+		p := safely(func() { _ = w.WAL.FlushCommandsToWAL(cmds) })
+		w.Close()
+		if p != "" {
+			c.Violate("panic|encode|"+cls, p)
+			return
+		}
+		if len(cap.tgs) == 0 {
+			c.Violate("no-transaction-sent|"+cls, "FlushCommandsToWAL handed nothing to the replication sender")
+			return
+		}
+		body = cap.tgs[len(cap.tgs)-1]
 	}
 	// only shapes the real write path accepts are judged: probe acceptance with a create + one-row write
 	if !c28Accepted(s, names) {
@@ -347,7 +367,7 @@ func c28Synthetic(c *mc.Ctx, s c28Spec, names []string, cls, rt string) {
 		c.Violate("panic|decode|"+cls, "ParseTGData panicked on serializeTG output: "+p)
 		return
 	}
-	if id != 42 || len(wts) != len(cmds) {
+	if len(body) < 8 || id != int64(binary.LittleEndian.Uint64(body)) || len(wts) != len(cmds) {
 		c.Violate("field:header|"+cls, fmt.Sprintf("tgid %d commands %d", id, len(wts)))
 		return
 	}
